@@ -228,6 +228,23 @@ def _alarm(signum, frame):
     raise WallClockHang("one case took more than %d s of real time" % CASE_WALL_LIMIT)
 
 
+def _arm_deadline(tier):
+    """Last line of defence against a runaway process (e.g. code under test spinning inside an exception handler
+    that swallows the per-execution watchdog): after VERIF_WALL_LIMIT seconds (default 1 h quick, 8 h thorough) the
+    process ends itself with the harness-error exit code - inconclusive, never a violation."""
+    import threading
+    limit = float(os.environ.get("VERIF_WALL_LIMIT", 3600 if tier == "quick" else 8 * 3600))
+
+    def bomb():
+        time.sleep(limit)
+        try:
+            os.write(2, b"HARNESS: wall-clock limit reached, giving up (inconclusive)\n")
+        finally:
+            os._exit(2)
+    t = threading.Thread(target=bomb, name="verif-deadline", daemon=True)
+    t.start()
+
+
 def guarded_run(prop, case):
     """run_case with a real-time watchdog: one simulated execution normally takes milliseconds;
     two minutes without finishing one means the code under test spins without ever touching
@@ -448,6 +465,7 @@ def main(prop, tier, seed, replay=None):
     acc = Acc()
     failure = None
     failure_path = None
+    _arm_deadline(tier)      # threads do not survive fork: pool workers arm their own (Pool initializer)
 
     # 1. saved replays (seconds-long regression tier)
     n_rep = 0
@@ -476,7 +494,7 @@ def main(prop, tier, seed, replay=None):
             for shard in range(NPROC):
                 tasks.append(("hyp", (prop.id, tier, seed, shard, per)))
         if tasks:
-            with ctx.Pool(min(NPROC, len(tasks))) as pool:
+            with ctx.Pool(min(NPROC, len(tasks)), initializer=_arm_deadline, initargs=(tier,)) as pool:
                 asyncs = []
                 for kind, args in tasks:
                     fn = _enum_worker if kind == "enum" else _hyp_worker
